@@ -23,11 +23,14 @@ pub enum SeamKind {
     Trace = 2,
     Write = 3,
     Op = 4,
+    /// not a seam of its own: marks the nested operation a caller performs from a destructor while
+    /// the injected panic of the enclosing operation unwinds (`Fault::Reenter { seam: Unwind, .. }`)
+    Unwind = 5,
 }
 
 impl SeamKind {
     pub fn name(self) -> &'static str {
-        ["iter", "cb", "trace", "write", "op"][self as usize]
+        ["iter", "cb", "trace", "write", "op", "unwind"][self as usize]
     }
 }
 
@@ -51,6 +54,8 @@ pub struct OpCtx {
     pub faults: Vec<SeamFault>,
     pub counts: [u32; 5],
     pub nested_ops: Vec<crate::scenario::Op>,
+    /// index into `nested_ops`: performed from a guard's `Drop` while an injected panic unwinds
+    pub unwind_op: Option<usize>,
     pub depth: u32,
 }
 
@@ -370,11 +375,29 @@ pub fn seam(kind: SeamKind) {
         Some((SeamAction::Panic, _)) if cfg!(feature = "shadow") => {
             fired("panic_not_injected_in_shadow_build");
         }
-        Some((SeamAction::Panic, _)) => {
+        Some((SeamAction::Panic, depth)) => {
             fired(match kind {
                 SeamKind::Iter => "iter_panic",
                 SeamKind::Cb => "cb_panic",
                 _ => "seam_panic",
+            });
+            // a caller whose destructor uses the parser again while this panic unwinds (an editor
+            // buffer that re-validates in `Drop`, a `defer!`): the operation must return what it
+            // returns at any other time, although `std::thread::panicking()` is true meanwhile
+            struct DuringUnwind(Option<crate::scenario::Op>);
+            impl Drop for DuringUnwind {
+                fn drop(&mut self) {
+                    if let Some(op) = self.0.take() {
+                        fired("op_during_unwind");
+                        crate::c18::run_nested(&op);
+                        with(|s| s.nested_done += 1);
+                    }
+                }
+            }
+            let _guard = DuringUnwind(if depth == 0 {
+                with(|s| s.tasks[t].stack.last().and_then(|c| c.unwind_op.and_then(|i| c.nested_ops.get(i).cloned())))
+            } else {
+                None
             });
             panic!("{INJECTED}");
         }
